@@ -10,8 +10,9 @@ PROPERTY = "C20"
 RULE = ("frame-*: EXHAUSTIVE enumeration of (n 1..N, past 1..6, delay2 2..6, delay1=1, use_all_past=False) "
         "with nrow=n-delay2-past+2>=1, x {no X, 1 or 2 exogenous columns} x {weights, none} x same_rows, on an "
         "injective series (every value identifies its time index) so each output cell is decoded back to a time "
-        "index; frame-values: the same oracle on Hypothesis-drawn injective real series (float64/float32). "
-        "mape-*: Hypothesis-drawn series/forecasts/weights. Non-trivial: past>=2 and delay2>=3, or X/weights "
+        "index (plus series of 255..1025 rows, 4097 thorough); frame-values: the same oracle on Hypothesis-drawn injective real series (float64/float32), given as "
+        "arrays or as pandas Series with the default or a permuted index. "
+        "mape-*: Hypothesis-drawn series/forecasts/weights as arrays, lists, column vectors or pandas Series. Non-trivial: past>=2 and delay2>=3, or X/weights "
         "present (frame); series with >=3 points and a non-constant expected part (mape). Distinct = distinct "
         "configuration / distinct case JSON.")
 ASSUMPTIONS = [
@@ -138,6 +139,14 @@ def _enum_cases(tier):
                             X = None if ncol == 0 else [[float(t), float(-t - 1)][:ncol] for t in range(n)]
                             w = [1000.0 + t for t in range(n)] if hasw else None
                             yield dict(past=past, delay2=delay2, same_rows=same_rows, y=y, X=X, w=w)
+    # long series (lengths around powers of two and beyond): same statement
+    for n in ((255, 256, 257, 1025) if tier == "quick" else (255, 256, 257, 511, 512, 513, 1023, 1024, 1025, 4097)):
+        for past in (1, 3, 6):
+            for delay2 in (2, 4):
+                for same_rows in (False, True):
+                    for cont in ("array", "series-permuted"):
+                        yield dict(past=past, delay2=delay2, same_rows=same_rows, y=[float(t) for t in range(n)],
+                                   X=[[float(t), float(-t - 1)] for t in range(n)], w=[1000.0 + t for t in range(n)], container=cont)
 
 
 _grid = st.integers(-4000, 4000).map(lambda k: k / 8.0)
